@@ -529,6 +529,12 @@ func (in *Interp) call(fn Value, args []Value, spread bool) Value {
 	case *HostFn:
 		v, err := f.F(args)
 		if err != nil {
+			switch e := err.(type) {
+			case ErrWrongArgs:
+				in.fail("wrong number of arguments in call to '%s'", TypeName(f))
+			case ErrArgType:
+				in.fail("invalid type for argument '%s' in call to '%s': expected %s, found %s", e.Name, TypeName(f), e.Expected, e.Found)
+			}
 			panic(&RuntimeError{Msg: err.Error()})
 		}
 		if v == nil {
